@@ -32,8 +32,8 @@ def write_xml(tree, d, order=None):
             f.write(text)
 
 
-def gen(root, xml, out, hashseed, walk):
-    env = dict(os.environ, PYTHONPATH=root, PYTHONHASHSEED=hashseed, PYTHONDONTWRITEBYTECODE='1')
+def gen(root, xml, out, hashseed, walk, reuse=''):
+    env = dict(os.environ, PYTHONPATH=root, PYTHONHASHSEED=hashseed, PYTHONDONTWRITEBYTECODE='1', VERIF_REUSE=reuse)
     p = subprocess.run([PY, os.path.join(VERIF, 'tools', 'gen_variants.py'), root, xml, out, walk], env=env, capture_output=True, text=True, timeout=300)
     return (p.stdout.strip().split('\n') or ['?'])[-1]
 
@@ -53,6 +53,15 @@ def one_tree(args):
             res['problems'].append(f"variant {vname}: generator did not succeed: {st}")
             continue
         outs[vname] = read_tree(o)
+    # one generator object used repeatedly: twice in a row, and again after a run that failed on a (then repaired) file
+    for rname, reuse in (('same-object-twice', 'twice'), ('same-object-after-failed-run', 'after-failure')):
+        o = os.path.join(base, 'out-' + rname)
+        st = gen(root, xml, o, '6', 'normal', reuse)
+        res['runs'] += 1
+        if st != 'GENERATED':
+            res['problems'].append(f"variant {rname}: generator did not succeed: {st}")
+        else:
+            outs[rname] = read_tree(o)
     # XML files created on disk in another order
     xml2 = os.path.join(base, 'xml-rev')
     write_xml(tree, xml2, 'reversed')
@@ -127,7 +136,7 @@ def run(tier):
             C.violation(f"tree '{r['name']}': {p}", dict(unit='protocol_code_generator', input=dict(tree=r['name'], xml=tree_xml(t['tree']))))
         if 'files' in r:
             cases.append((t['tree'], r['files'], r['init_lines']))
-    C.stream('oracle.determinism', runs, runs, sample=dict(tree=trees[0]['name'], variants=[v[0] for v in VARIANTS] + ['created-reversed', 'second-run-same-dir', 'pre-populated']))
+    C.stream('oracle.determinism', runs, runs, sample=dict(tree=trees[0]['name'], variants=[v[0] for v in VARIANTS] + ['same-object-twice', 'same-object-after-failed-run', 'created-reversed', 'second-run-same-dir', 'pre-populated']))
     C.cov['distribution'] = dict(trees=len(trees), generator_runs=runs)
     # ---- correspondence with Model/GenPkg.v: file set and __init__ star-imports
     fn = os.path.join(COQ, 'Cases', 'c18.v')
